@@ -80,6 +80,8 @@ def run_params(case):
             return out
         dev = env.device
         link = env.world.links[0]
+        # the first persistent-state query for some parameters is answered "no such entry"
+        dev.state_enoent_budget = {i % len(toc): 1 for i in case.get('state_enoent', [])} if toc else {}
         if resending:
             # a radio-like link: requests not answered within 0.2 s are sent again, the device then answers twice
             link.needs_resending = True
@@ -537,7 +539,8 @@ def param_case(draw):
         sched['rate'] = draw(st.sampled_from([0.2, 0.5, 0.5]))     # without preemption the threads simply run one after the other
     return {'version': draw(st.sampled_from([10, 10, 4, 3, 0])), 'tseed': draw(st.integers(0, 9)), 'threads': threads, 'notifications': notifications,
             'delays': draw(st.lists(st.sampled_from([0.0, 0.0, 0.001, 0.001, 0.003, 0.01, 0.05, 0.3]), min_size=1, max_size=6)), 'schedule': sched,
-            'resending': draw(st.sampled_from([False, False, False, True]))}
+            'resending': draw(st.sampled_from([False, False, False, True])),
+            'state_enoent': draw(st.one_of(st.just([]), st.lists(st.integers(0, 15), max_size=3)))}
 
 
 def single_preemption_cases(tier):
